@@ -238,6 +238,109 @@ def c_ilist_append(eng, st, recv, args, kws, node):
     return [(st, V(None, NONE))]
 
 
+def pass_spec(fwd):
+    """the relational specification of __forward_pass / __backward_pass: pre-condition clauses and post-condition clauses as functions of two
+    states; used for the body (pass_unit), for the recursive calls and for the calls from calc (calc_unit)"""
+    cls, R = ('ForwardScheduler', FS) if fwd else ('BackwardScheduler', BS)
+    bound_fld = f'_{cls}__start' if fwd else f'_{cls}__end'
+    linkL = preL if fwd else sucL
+
+    def bal(eng, st, me): return Select(eng.field(st, cls, f'_{cls}__balance_resources'), me)
+    def bound(eng, st, me): return Select(eng.field(st, cls, bound_fld), me)
+    def defest(eng, st, me): return Select(eng.field(st, cls, f'_{cls}__default_estimate'), me)
+    def calc_of(h, ref): return h.ielems[ref]
+    def rows_of(h, ref): return h.rowsf[ref]
+
+    def struct(h):
+        d = Struct(h, fwd)
+        return d
+
+    def pre_clauses(eng, st, me, task, ru, clr):
+        h = H(eng, st); cl = calc_of(h, clr); L = rows_of(h, ru)
+        d = {}
+        d.update(SchedInv(h, cl, L, fwd, bound(eng, st, me)))
+        s = struct(h); s.pop('clean-unscheduled-leaf-has-no-dates')
+        d.update(s)
+        d['clean-unscheduled-leaf-has-no-dates'] = ForAll([t_], Implies(And(t_ != null, clean(t_), ln(chL(t_)) == 0, Not(mem_i(cl, h.tid[t_]))),
+                                                                           And(Not(some(h.start[t_])), Not(some(h.end[t_])))), patterns=[clean(t_)])
+        d['summary-fields-cleared (__prepare_tasks)'] = ForAll([t_], Implies(And(t_ != null, ln(chL(t_)) > 0, Not(mem_i(cl, h.tid[t_]))),
+                                                                             And(Not(some(h.start[t_])), Not(some(h.end[t_])), Not(rsome(h.est[t_])), Not(rsome(h.spent[t_])))), patterns=[chL(t_)])
+        d['C03/ledger'] = And(LedInv(L, bal(eng, st, me)), wf(L))
+        d['non-null'] = And(me != R.null, task != null, ru != RU.null, clr != IL.null)
+        d['default-estimate-non-negative'] = defest(eng, st, me) >= 0
+        return d
+
+    def post_clauses(eng, st0, st1, me, task, ru, clr, now0, now1):
+        """relational post-condition; st0 = state at entry / before the call, st1 = state at exit / after the call"""
+        h0, h1 = H(eng, st0), H(eng, st1)
+        cl0, cl1 = calc_of(h0, clr), calc_of(h1, clr); L0, L1 = rows_of(h0, ru), rows_of(h1, ru)
+        b = bal(eng, st0, me); B0 = bound(eng, st0, me)
+        same = lambda t: And(h1.start[t] == h0.start[t], h1.end[t] == h0.end[t], h1.est[t] == h0.est[t], h1.spent[t] == h0.spent[t])
+        x_ = Int('x_')
+        out = {'in-calculated': mem_i(cl1, h0.tid[task]),
+               'calculated-grows': ForAll([x_], Implies(mem_i(cl0, x_), mem_i(cl1, x_)), patterns=[mem_i(cl0, x_), mem_i(cl1, x_)]),
+               'C03/ledger': And(LedInv(L1, b), wf(L1)),
+               'C06/frame-calculated-tasks-keep-their-fields': ForAll([t_], Implies(And(t_ != null, mem_i(cl0, h0.tid[t_])), same(t_)), patterns=[mem_i(cl0, h0.tid[t_])]),
+               'C06/frame-higher-rank-untouched': ForAll([t_], Implies(And(t_ != null, rank(t_) > rank(task)), And(same(t_), mem_i(cl1, h0.tid[t_]) == mem_i(cl0, h0.tid[t_]), work(L1, t_) == work(L0, t_))), patterns=[rank(t_)]),
+               'C06/frame-tasks-left-uncalculated-are-untouched': ForAll([t_], Implies(And(t_ != null, Not(mem_i(cl1, h0.tid[t_]))), same(t_)), patterns=[mem_i(cl1, h0.tid[t_])]),
+               'frame-higher-rank-rows': ForAll([t_, r_, d_], Implies(And(t_ != null, rank(t_) > rank(task)), totT(L1, r_, d_, t_) == totT(L0, r_, d_, t_)), patterns=[totT(L1, r_, d_, t_)]),
+               'C03,C04/ledger-only-grows': And(ForAll([r_, d_], tot(L1, r_, d_) >= tot(L0, r_, d_), patterns=[tot(L1, r_, d_)]), ForAll([r_, d_, k_], totT(L1, r_, d_, k_) >= totT(L0, r_, d_, k_), patterns=[totT(L1, r_, d_, k_)])),
+               }
+        for k, v in SchedInv(h1, cl1, L1, fwd, B0).items(): out['inv/' + k] = v
+        fresh_ = Not(mem_i(cl0, h0.tid[task])); leaf = ln(chL(task)) == 0; ms = h0.ms[task]
+        S1, E1 = tv(h1.start[task]), tv(h1.end[task])
+        # ---------------- C07: start <= end, roll-ups
+        out['C07/start<=end'] = Implies(And(fresh_, clean(task)), S1 <= E1)
+        j = Int('jj')
+        kids_done = ForAll([j], Implies(And(0 <= j, j < ln(chL(task))), done(h1, at(chL(task), j))))
+        out['C07/summary-starts-at-earliest-child-start'] = Implies(And(fresh_, Not(ms), Not(leaf)),
+            And(kids_done, ForAll([j], Implies(And(0 <= j, j < ln(chL(task))), S1 <= tv(h1.start[at(chL(task), j)]))), Exists([j], And(0 <= j, j < ln(chL(task)), S1 == tv(h1.start[at(chL(task), j)])))))
+        out['C07/summary-ends-at-latest-child-end'] = Implies(And(fresh_, Not(ms), Not(leaf)) if fwd else And(fresh_, Not(ms), Not(leaf), clean(task)),
+            And(ForAll([j], Implies(And(0 <= j, j < ln(chL(task))), E1 >= tv(h1.end[at(chL(task), j)]))), Exists([j], And(0 <= j, j < ln(chL(task)), E1 == tv(h1.end[at(chL(task), j)])))))
+        out['C07/summary-carries-the-sums'] = Implies(And(fresh_, Not(ms), Not(leaf)), And(rv(h1.est[task]) == rsum(mapR(chL(task), h1.est)), rv(h1.spent[task]) == rsum(mapR(chL(task), h1.spent))))
+        # ---------------- C04: reserved work
+        wanted = If(rv(h1.est[task]) - rv(h1.spent[task]) >= 0, rv(h1.est[task]) - rv(h1.spent[task]), 0)
+        if fwd:
+            reserves = And(leaf, Not(ms), Not(some(h0.end[task])))
+        else:
+            reserves = And(leaf, Not(ms))
+        out['C04/reserved-work-is-the-remaining-work'] = Implies(fresh_, work(L1, task) == If(reserves, wanted, 0))
+        out['C04/defaults-filled'] = Implies(And(fresh_, leaf, Not(ms)), And(rv(h1.est[task]) == If(rsome(h0.est[task]), rv(h0.est[task]), ToReal(defest(eng, st0, me)) if False else defest(eng, st0, me)),
+                                                                             rv(h1.spent[task]) == If(rsome(h0.spent[task]), rv(h0.spent[task]), 0)))
+        if fwd:
+            out['C04/user-fixed-dates-returned-unchanged'] = Implies(And(fresh_, leaf, Not(ms)), And(Implies(some(h0.start[task]), h1.start[task] == h0.start[task]), Implies(some(h0.end[task]), h1.end[task] == h0.end[task])))
+            # ---------------- C02 (leaf with a start chosen by the scheduler)
+            chosen = And(fresh_, leaf, Not(ms), Not(some(h0.start[task])))
+            a_ = Int('a_'); q = Int('qq')
+            own = ForAll([q], Implies(And(0 <= q, q < ln(preL(task))), And(some(h1.end[at(preL(task), q)]), dayidx(S1) >= dayidx(tv(h1.end[at(preL(task), q)])))))
+            inh = ForAll([a_, q], Implies(And(0 <= a_, a_ < ln(ancL(task)), 0 <= q, q < ln(preL(at(ancL(task), a_)))),
+                                          And(some(h1.end[at(preL(at(ancL(task), a_)), q)]), dayidx(S1) >= dayidx(tv(h1.end[at(preL(at(ancL(task), a_)), q)])))))
+            out['C02/start-not-before-own-prerequisite-ends'] = Implies(chosen, own)
+            out['C02/start-not-before-inherited-prerequisite-ends'] = Implies(chosen, inh)
+            out['C02/start-not-before-project-start-min_start-and-clock'] = Implies(chosen, And(dayidx(S1) >= dayidx(B0), dayidx(S1) >= dayidx(now0),
+                                                                                                 Implies(some(h0.minst[task]), dayidx(S1) >= dayidx(tv(h0.minst[task])))))
+            out['C02,C04/no-work-before-the-start-day-nor-before-today'] = Implies(And(fresh_, leaf, Not(ms)), ForAll([r_, d_], Implies(Or(d_ < dayidx(S1), d_ < dayidx(now0)), totT(L1, r_, d_, task) == totT(L0, r_, d_, task))))
+            ownm = ForAll([q], Implies(And(0 <= q, q < ln(preL(task)), some(h1.end[at(preL(task), q)])), S1 >= tv(h1.end[at(preL(task), q)])))
+            inhm = ForAll([a_, q], Implies(And(0 <= a_, a_ < ln(ancL(task)), 0 <= q, q < ln(preL(at(ancL(task), a_))), some(h1.end[at(preL(at(ancL(task), a_)), q)])),
+                                           S1 >= tv(h1.end[at(preL(at(ancL(task), a_)), q)])))
+            exact = Or(S1 == B0, Exists([q], And(0 <= q, q < ln(preL(task)), some(h1.end[at(preL(task), q)]), S1 == tv(h1.end[at(preL(task), q)]))),
+                       Exists([a_, q], And(0 <= a_, a_ < ln(ancL(task)), 0 <= q, q < ln(preL(at(ancL(task), a_))), some(h1.end[at(preL(at(ancL(task), a_)), q)]), S1 == tv(h1.end[at(preL(at(ancL(task), a_)), q)]))))
+            out['C02/milestone-at-the-latest-prerequisite-end'] = Implies(And(fresh_, ms), And(S1 == E1, S1 >= B0, ownm, inhm, exact))
+        else:
+            a_ = Int('a_'); q = Int('qq')
+            own = ForAll([q], Implies(And(0 <= q, q < ln(sucL(task)), some(h1.start[at(sucL(task), q)])), E1 <= tv(h1.start[at(sucL(task), q)])))
+            inh = ForAll([a_, q], Implies(And(0 <= a_, a_ < ln(ancL(task)), 0 <= q, q < ln(sucL(at(ancL(task), a_))), some(h1.start[at(sucL(at(ancL(task), a_)), q)])),
+                                          E1 <= tv(h1.start[at(sucL(at(ancL(task), a_)), q)])))
+            nofixed = And(Not(some(h0.start[task])), Not(some(h0.end[task])))
+            out['C09/ends-not-after-the-project-end'] = Implies(And(fresh_, clean(task)), E1 <= B0)
+            out['C09/ends-not-after-own-successor-starts'] = Implies(And(fresh_, clean(task)), own)
+            out['C09/ends-not-after-inherited-successor-starts'] = Implies(And(fresh_, clean(task)), inh)
+        return out
+
+    return type('PassSpec', (), dict(bal=staticmethod(bal), bound=staticmethod(bound), defest=staticmethod(defest), calc_of=staticmethod(calc_of), rows_of=staticmethod(rows_of),
+                                     pre_clauses=staticmethod(pre_clauses), post_clauses=staticmethod(post_clauses), cls=cls, R=R))
+
+
 def pass_unit(fwd):
     cls, R = ('ForwardScheduler', FS) if fwd else ('BackwardScheduler', BS)
     fname = '__forward_pass' if fwd else '__backward_pass'
@@ -245,97 +348,8 @@ def pass_unit(fwd):
     linkL = preL if fwd else sucL
 
     def build():
-        def bal(eng, st, me): return Select(eng.field(st, cls, f'_{cls}__balance_resources'), me)
-        def bound(eng, st, me): return Select(eng.field(st, cls, bound_fld), me)
-        def defest(eng, st, me): return Select(eng.field(st, cls, f'_{cls}__default_estimate'), me)
-        def calc_of(h, ref): return h.ielems[ref]
-        def rows_of(h, ref): return h.rowsf[ref]
-
-        def struct(h):
-            d = Struct(h, fwd)
-            return d
-
-        def pre_clauses(eng, st, me, task, ru, clr):
-            h = H(eng, st); cl = calc_of(h, clr); L = rows_of(h, ru)
-            d = {}
-            d.update(SchedInv(h, cl, L, fwd, bound(eng, st, me)))
-            s = struct(h); s.pop('clean-unscheduled-leaf-has-no-dates')
-            d.update(s)
-            d['clean-unscheduled-leaf-has-no-dates'] = ForAll([t_], Implies(And(t_ != null, clean(t_), ln(chL(t_)) == 0, Not(mem_i(cl, h.tid[t_]))),
-                                                                               And(Not(some(h.start[t_])), Not(some(h.end[t_])))), patterns=[clean(t_)])
-            d['summary-fields-cleared (__prepare_tasks)'] = ForAll([t_], Implies(And(t_ != null, ln(chL(t_)) > 0, Not(mem_i(cl, h.tid[t_]))),
-                                                                                 And(Not(some(h.start[t_])), Not(some(h.end[t_])), Not(rsome(h.est[t_])), Not(rsome(h.spent[t_])))), patterns=[chL(t_)])
-            d['C03/ledger'] = And(LedInv(L, bal(eng, st, me)), wf(L))
-            d['non-null'] = And(me != R.null, task != null, ru != RU.null, clr != IL.null)
-            d['default-estimate-non-negative'] = defest(eng, st, me) >= 0
-            return d
-
-        def post_clauses(eng, st0, st1, me, task, ru, clr, now0, now1):
-            """relational post-condition; st0 = state at entry / before the call, st1 = state at exit / after the call"""
-            h0, h1 = H(eng, st0), H(eng, st1)
-            cl0, cl1 = calc_of(h0, clr), calc_of(h1, clr); L0, L1 = rows_of(h0, ru), rows_of(h1, ru)
-            b = bal(eng, st0, me); B0 = bound(eng, st0, me)
-            same = lambda t: And(h1.start[t] == h0.start[t], h1.end[t] == h0.end[t], h1.est[t] == h0.est[t], h1.spent[t] == h0.spent[t])
-            x_ = Int('x_')
-            out = {'in-calculated': mem_i(cl1, h0.tid[task]),
-                   'calculated-grows': ForAll([x_], Implies(mem_i(cl0, x_), mem_i(cl1, x_)), patterns=[mem_i(cl0, x_), mem_i(cl1, x_)]),
-                   'C03/ledger': And(LedInv(L1, b), wf(L1)),
-                   'C06/frame-calculated-tasks-keep-their-fields': ForAll([t_], Implies(And(t_ != null, mem_i(cl0, h0.tid[t_])), same(t_)), patterns=[mem_i(cl0, h0.tid[t_])]),
-                   'C06/frame-higher-rank-untouched': ForAll([t_], Implies(And(t_ != null, rank(t_) > rank(task)), And(same(t_), mem_i(cl1, h0.tid[t_]) == mem_i(cl0, h0.tid[t_]), work(L1, t_) == work(L0, t_))), patterns=[rank(t_)]),
-                   'C06/frame-tasks-left-uncalculated-are-untouched': ForAll([t_], Implies(And(t_ != null, Not(mem_i(cl1, h0.tid[t_]))), same(t_)), patterns=[mem_i(cl1, h0.tid[t_])]),
-                   'frame-higher-rank-rows': ForAll([t_, r_, d_], Implies(And(t_ != null, rank(t_) > rank(task)), totT(L1, r_, d_, t_) == totT(L0, r_, d_, t_)), patterns=[totT(L1, r_, d_, t_)]),
-                   'C03,C04/ledger-only-grows': And(ForAll([r_, d_], tot(L1, r_, d_) >= tot(L0, r_, d_), patterns=[tot(L1, r_, d_)]), ForAll([r_, d_, k_], totT(L1, r_, d_, k_) >= totT(L0, r_, d_, k_), patterns=[totT(L1, r_, d_, k_)])),
-                   }
-            for k, v in SchedInv(h1, cl1, L1, fwd, B0).items(): out['inv/' + k] = v
-            fresh_ = Not(mem_i(cl0, h0.tid[task])); leaf = ln(chL(task)) == 0; ms = h0.ms[task]
-            S1, E1 = tv(h1.start[task]), tv(h1.end[task])
-            # ---------------- C07: start <= end, roll-ups
-            out['C07/start<=end'] = Implies(And(fresh_, clean(task)), S1 <= E1)
-            j = Int('jj')
-            kids_done = ForAll([j], Implies(And(0 <= j, j < ln(chL(task))), done(h1, at(chL(task), j))))
-            out['C07/summary-starts-at-earliest-child-start'] = Implies(And(fresh_, Not(ms), Not(leaf)),
-                And(kids_done, ForAll([j], Implies(And(0 <= j, j < ln(chL(task))), S1 <= tv(h1.start[at(chL(task), j)]))), Exists([j], And(0 <= j, j < ln(chL(task)), S1 == tv(h1.start[at(chL(task), j)])))))
-            out['C07/summary-ends-at-latest-child-end'] = Implies(And(fresh_, Not(ms), Not(leaf)) if fwd else And(fresh_, Not(ms), Not(leaf), clean(task)),
-                And(ForAll([j], Implies(And(0 <= j, j < ln(chL(task))), E1 >= tv(h1.end[at(chL(task), j)]))), Exists([j], And(0 <= j, j < ln(chL(task)), E1 == tv(h1.end[at(chL(task), j)])))))
-            out['C07/summary-carries-the-sums'] = Implies(And(fresh_, Not(ms), Not(leaf)), And(rv(h1.est[task]) == rsum(mapR(chL(task), h1.est)), rv(h1.spent[task]) == rsum(mapR(chL(task), h1.spent))))
-            # ---------------- C04: reserved work
-            wanted = If(rv(h1.est[task]) - rv(h1.spent[task]) >= 0, rv(h1.est[task]) - rv(h1.spent[task]), 0)
-            if fwd:
-                reserves = And(leaf, Not(ms), Not(some(h0.end[task])))
-            else:
-                reserves = And(leaf, Not(ms))
-            out['C04/reserved-work-is-the-remaining-work'] = Implies(fresh_, work(L1, task) == If(reserves, wanted, 0))
-            out['C04/defaults-filled'] = Implies(And(fresh_, leaf, Not(ms)), And(rv(h1.est[task]) == If(rsome(h0.est[task]), rv(h0.est[task]), ToReal(defest(eng, st0, me)) if False else defest(eng, st0, me)),
-                                                                                 rv(h1.spent[task]) == If(rsome(h0.spent[task]), rv(h0.spent[task]), 0)))
-            if fwd:
-                out['C04/user-fixed-dates-returned-unchanged'] = Implies(And(fresh_, leaf, Not(ms)), And(Implies(some(h0.start[task]), h1.start[task] == h0.start[task]), Implies(some(h0.end[task]), h1.end[task] == h0.end[task])))
-                # ---------------- C02 (leaf with a start chosen by the scheduler)
-                chosen = And(fresh_, leaf, Not(ms), Not(some(h0.start[task])))
-                a_ = Int('a_'); q = Int('qq')
-                own = ForAll([q], Implies(And(0 <= q, q < ln(preL(task))), And(some(h1.end[at(preL(task), q)]), dayidx(S1) >= dayidx(tv(h1.end[at(preL(task), q)])))))
-                inh = ForAll([a_, q], Implies(And(0 <= a_, a_ < ln(ancL(task)), 0 <= q, q < ln(preL(at(ancL(task), a_)))),
-                                              And(some(h1.end[at(preL(at(ancL(task), a_)), q)]), dayidx(S1) >= dayidx(tv(h1.end[at(preL(at(ancL(task), a_)), q)])))))
-                out['C02/start-not-before-own-prerequisite-ends'] = Implies(chosen, own)
-                out['C02/start-not-before-inherited-prerequisite-ends'] = Implies(chosen, inh)
-                out['C02/start-not-before-project-start-min_start-and-clock'] = Implies(chosen, And(dayidx(S1) >= dayidx(B0), dayidx(S1) >= dayidx(now0),
-                                                                                                     Implies(some(h0.minst[task]), dayidx(S1) >= dayidx(tv(h0.minst[task])))))
-                out['C02,C04/no-work-before-the-start-day-nor-before-today'] = Implies(And(fresh_, leaf, Not(ms)), ForAll([r_, d_], Implies(Or(d_ < dayidx(S1), d_ < dayidx(now0)), totT(L1, r_, d_, task) == totT(L0, r_, d_, task))))
-                ownm = ForAll([q], Implies(And(0 <= q, q < ln(preL(task)), some(h1.end[at(preL(task), q)])), S1 >= tv(h1.end[at(preL(task), q)])))
-                inhm = ForAll([a_, q], Implies(And(0 <= a_, a_ < ln(ancL(task)), 0 <= q, q < ln(preL(at(ancL(task), a_))), some(h1.end[at(preL(at(ancL(task), a_)), q)])),
-                                               S1 >= tv(h1.end[at(preL(at(ancL(task), a_)), q)])))
-                exact = Or(S1 == B0, Exists([q], And(0 <= q, q < ln(preL(task)), some(h1.end[at(preL(task), q)]), S1 == tv(h1.end[at(preL(task), q)]))),
-                           Exists([a_, q], And(0 <= a_, a_ < ln(ancL(task)), 0 <= q, q < ln(preL(at(ancL(task), a_))), some(h1.end[at(preL(at(ancL(task), a_)), q)]), S1 == tv(h1.end[at(preL(at(ancL(task), a_)), q)]))))
-                out['C02/milestone-at-the-latest-prerequisite-end'] = Implies(And(fresh_, ms), And(S1 == E1, S1 >= B0, ownm, inhm, exact))
-            else:
-                a_ = Int('a_'); q = Int('qq')
-                own = ForAll([q], Implies(And(0 <= q, q < ln(sucL(task)), some(h1.start[at(sucL(task), q)])), E1 <= tv(h1.start[at(sucL(task), q)])))
-                inh = ForAll([a_, q], Implies(And(0 <= a_, a_ < ln(ancL(task)), 0 <= q, q < ln(sucL(at(ancL(task), a_))), some(h1.start[at(sucL(at(ancL(task), a_)), q)])),
-                                              E1 <= tv(h1.start[at(sucL(at(ancL(task), a_)), q)])))
-                nofixed = And(Not(some(h0.start[task])), Not(some(h0.end[task])))
-                out['C09/ends-not-after-the-project-end'] = Implies(And(fresh_, clean(task)), E1 <= B0)
-                out['C09/ends-not-after-own-successor-starts'] = Implies(And(fresh_, clean(task)), own)
-                out['C09/ends-not-after-inherited-successor-starts'] = Implies(And(fresh_, clean(task)), inh)
-            return out
+        sp = pass_spec(fwd)
+        bal, bound, defest, calc_of, rows_of, pre_clauses, post_clauses = sp.bal, sp.bound, sp.defest, sp.calc_of, sp.rows_of, sp.pre_clauses, sp.post_clauses
 
         # ---- callee contracts
         def c_nearest(eng, st, recv, args, kws, node):
@@ -665,3 +679,135 @@ def isolation_unit():
 
 
 UNITS.append(isolation_unit())
+
+
+# ------------------------------------------------------------------------------------------------ calc: base case and composition
+empty_i = Const('empty_ids', LI.z)
+CALC_AX = [ForAll([n_], Not(mem_i(empty_i, n_)), patterns=[mem_i(empty_i, n_)]),
+           ForAll([r_, d_], cap(r_, d_) >= 0, patterns=[cap(r_, d_)])]          # interface contract of IResource.get_available_units (C17: proved for Resource over every calendar combinator)
+SCHEDULE = REF('Schedule')
+
+
+def pass_call(sp, fwd, eng, st, me, task, ru, clr, node):
+    """the contract of the pass at a call from calc (no enclosing pass: nothing to decrease)"""
+    for k, v in sp.pre_clauses(eng, st, me, task, ru, clr).items():
+        st.oblige(f'req@pass/{k}', v, f'@{node.lineno}')
+    exc = st.fork(); ok = st.fork()
+    for s2 in (ok, exc):
+        for key in HV: eng.havoc(s2, key)
+    now_before = st.ghost.get('now'); nw = fresh('now', TIME)
+    if now_before is not None: ok.assume(nw >= now_before); exc.assume(nw >= now_before)
+    ok.ghost['now'] = nw; exc.ghost['now'] = nw
+    for v in sp.post_clauses(eng, st, ok, me, task, ru, clr, now_before if now_before is not None else nw, nw).values(): ok.assume(v)
+    return [(ok, V(None, NONE)), (exc, Raise('RuntimeError'))]
+
+
+def calc_unit(fwd):
+    cls = 'ForwardScheduler' if fwd else 'BackwardScheduler'
+    R = FS if fwd else BS
+    wname = 'wbs' if fwd else 'project'; cname = 'forward' if fwd else 'backward'; uname = cname + '_resource_usage'
+    pname = '__forward_pass' if fwd else '__backward_pass'
+
+    def build():
+        sp = pass_spec(fwd)
+        j = Int('j')
+
+        def pure_may_raise(eng, st, recv, args, kws, node):          # validation helpers: read only; raise RuntimeError or return None
+            return [(st.fork(), V(None, NONE)), (st.fork(), Raise('RuntimeError'))]
+
+        def c_clone(eng, st, recv, args, kws, node):
+            """WBS.clone() - assumed contract (C10, bounded): a new WBS; together with the validations that have passed and the graph invariants
+            (C01/C05) it provides the structural facts the pass relies on (Struct), for the universe of the proof: the tasks of the copy
+            (closed world: links stay inside the WBS - outside tasks are the subject of known finding A-22)"""
+            fw = fresh('clone', WB); h = H(eng, st); TS = tasksL(fw); RS = rootsL(fw)
+            st.assume(And(fw != WB.null, fw != recv.e, nodup_t(TS), ForAll([j], Implies(And(0 <= j, j < ln(TS)), at(TS, j) != null), patterns=[at(TS, j)]),
+                          ln(RS) >= 0, ForAll([j], Implies(And(0 <= j, j < ln(RS)), at(RS, j) != null), patterns=[at(RS, j)])))
+            for k, v in Struct(h, fwd).items():
+                if v is not None: st.assume(v)
+            st.assume(ForAll([t_], Implies(And(t_ != null, clean(t_), ln(chL(t_)) == 0), And(Not(some(h.start[t_])), Not(some(h.end[t_])))), patterns=[clean(t_)]))   # definition of `clean` for this run
+            st.assume(ForAll([t_], Implies(t_ != null, mem_t(TS, t_)), patterns=[mem_t(TS, t_)]))                                                                         # closed world
+            st.assume(ForAll([t_], Implies(And(t_ != null, rsome(h.est[t_])), rv(h.est[t_]) >= 0), patterns=[h.est[t_]]))                                                  # Task.estimate / spent setters reject negatives
+            st.assume(ForAll([t_], Implies(And(t_ != null, rsome(h.spent[t_])), rv(h.spent[t_]) >= 0), patterns=[h.spent[t_]]))
+            return [(st, V(fw, WB))]
+
+        def c_prepare(eng, st, recv, args, kws, node):
+            """contract of __prepare_tasks (proved by its unit)"""
+            pr = args[0].e; TS = tasksL(pr); h0 = H(eng, st)
+            st.oblige('req@__prepare_tasks/project-with-listed-non-null-tasks-each-once',
+                      And(pr != WB.null, ForAll([j], Implies(And(0 <= j, j < ln(TS)), at(TS, j) != null), patterns=[at(TS, j)]), nodup_t(TS)), f'@{node.lineno}')
+            for key in FIELDS: eng.havoc(st, key)
+            h1 = H(eng, st)
+            cleared = lambda t: And(Not(some(h1.start[t])), Not(some(h1.end[t])), Not(rsome(h1.est[t])), Not(rsome(h1.spent[t])))
+            same = lambda t: And(h1.start[t] == h0.start[t], h1.end[t] == h0.end[t], h1.est[t] == h0.est[t], h1.spent[t] == h0.spent[t])
+            st.assume(ForAll([t_], Implies(And(t_ != null, mem_t(TS, t_), ln(chL(t_)) > 0), cleared(t_)), patterns=[mem_t(TS, t_)]))
+            st.assume(ForAll([t_], Implies(Or(ln(chL(t_)) == 0, Not(mem_t(TS, t_))), same(t_)), patterns=[h1.start[t_]]))
+            return [(st, V(None, NONE))]
+
+        def c_new_usage(eng, st, recv, args, kws, node):
+            ru = fresh('usage', RU); st.assume(ru != RU.null)
+            eng.write(st, '_ResourceUsage.rows', Store(eng.field(st, '_ResourceUsage', 'rows'), ru, nil))          # _ResourceUsage.__init__: self.rows = []
+            return [(st, V(ru, RU))]
+
+        def c_pass(eng, st, recv, args, kws, node):
+            task, md, ru, clr = [a.e for a in args]
+            st.oblige('req@pass/bound-is-the-scheduler-bound', md == sp.bound(eng, st, recv.e), f'@{node.lineno}')
+            return pass_call(sp, fwd, eng, st, recv.e, task, ru, clr, node)
+
+        class CalcPlugin(PassPlugin):
+            def ev_List(self, eng, e, st):
+                if e.elts: return NotImplemented
+                r = fresh('ids', IL); st.assume(r != IL.null)
+                eng.write(st, 'IntList.ielems', Store(eng.field(st, 'IntList', 'ielems'), r, empty_i))          # calculated = []
+                return [(st, V(r, IL))]
+
+            def call(self, eng, e, st):
+                if isinstance(e.func, ast.Name) and e.func.id == 'Schedule':          # the result object: (copy, resources, report over the SAME rows); its parts are read from the locals
+                    return [(st, V(fresh('schedule', SCHEDULE), SCHEDULE))]
+                if isinstance(e.func, ast.Name) and e.func.id == 'len' and len(e.args) == 1:
+                    s, v = eng.ev1(e.args[0], st)
+                    if v.s == LT: return [(s, V(ln(v.e), INT))]
+                return NotImplemented
+
+        def state(c):
+            me = c['self']; fw = c[cname]; ru = c[uname]; clr = c['calculated']
+            return me, fw, ru, clr
+
+        def inv_parts(c):
+            me, fw, ru, clr = state(c); eng = c.eng; st = c.st
+            d = sp.pre_clauses(eng, st, me, at(rootsL(fw), 0), ru, clr); d.pop('non-null')
+            return d
+        labels = list(_SchedInv(None, None, None).keys()) if False else None
+
+        def roots_done(c):
+            me, fw, ru, clr = state(c); h = H(c.eng, c.st); RS = rootsL(fw); cl = sp.calc_of(h, clr); i = c['_i0']
+            done_rng = And(0 <= j, j < i) if fwd else And(i < j, j < ln(RS))
+            rng = And(i >= 0, i <= ln(RS)) if fwd else And(i >= -1, i <= ln(RS) - 1)
+            return And(rng, me != R.null, fw != WB.null, ru != RU.null, clr != IL.null, ForAll([j], Implies(done_rng, mem_i(cl, h.tid[at(RS, j)])), patterns=[at(RS, j)]),
+                       ForAll([j], Implies(And(0 <= j, j < ln(RS)), at(RS, j) != null), patterns=[at(RS, j)]))
+        pre_labels = [l_ for l_ in (_labels_pre + ([] if fwd else ['C09/links-bounded'])) if l_ != 'non-null']
+        fp = f'for t in {cname}.roots' if fwd else 'for i in range(len(backward_roots) - 1, -1, -1)'
+
+        def final(c, lab):
+            me, fw, ru, clr = state(c); h = H(c.eng, c.st); cl = sp.calc_of(h, clr); L = sp.rows_of(h, ru); RS = rootsL(fw)
+            return {'C03/the-final-ledger-respects-every-capacity': And(LedInv(L, sp.bal(c.eng, c.st, me)), wf(L)),
+                    'C14/every-root-task-is-scheduled': ForAll([j], Implies(And(0 <= j, j < ln(RS)), mem_i(cl, h.tid[at(RS, j)])), patterns=[at(RS, j)]),
+                    'C07,C14/every-scheduled-task-has-dates-estimate-and-spent': _SchedInv(h, cl, L)['done'],
+                    'C07/every-scheduled-task-without-user-fixed-dates-below-it-starts-before-it-ends': _SchedInv(h, cl, L)['C07/ordered'],
+                    'C04/no-work-is-reserved-for-a-task-that-was-not-scheduled': _SchedInv(h, cl, L)['C04/no-work-before-scheduling']}[lab]
+        FL = ['C03/the-final-ledger-respects-every-capacity', 'C14/every-root-task-is-scheduled', 'C07,C14/every-scheduled-task-has-dates-estimate-and-spent',
+              'C07/every-scheduled-task-without-user-fixed-dates-below-it-starts-before-it-ends', 'C04/no-work-is-reserved-for-a-task-that-was-not-scheduled']
+        fc = {'sig': {'self': R, wname: WB}, 'clock': True, 'locals': {cname: WB, uname: RU, 'calculated': IL, 't': T, 'backward_roots': LT, 'i': INT},
+              'requires': [('scheduler-and-wbs-non-null', lambda c: And(c['self'] != R.null, c[wname] != WB.null)),
+                           ('default-estimate-non-negative', lambda c: sp.defest(c.eng, c.st, c['self']) >= 0)],
+              'loops': {0: {'fingerprint': fp, 'havoc_heap': HV, 'havoc_now': True,
+                            'invariant': [('roots-scheduled-so-far', roots_done)] + [('pass-precondition/' + l_, (lambda l_: lambda c: inv_parts(c)[l_])(l_)) for l_ in pre_labels]}},
+              'raises': {'RuntimeError': []},
+              'ensures': [(l_, (lambda l_: lambda c: final(c, l_))(l_)) for l_ in FL]}
+        contracts = {'fn:_validate_graph_isolation': pure_may_raise, 'fn:_check_loops': pure_may_raise, f'{cls}._{cls}__check_no_end_dates_in_future': pure_may_raise,
+                     'WBS.clone': c_clone, f'{cls}._{cls}__prepare_tasks': c_prepare, 'fn:_ResourceUsage': c_new_usage, f'{cls}._{cls}{pname}': c_pass,
+                     'prop:WBS.roots': lambda eng, st, recv, a, k, n: [(st, V(rootsL(recv.e), LT))]}
+        return Engine(F, f'{cls}.calc', contracts, CLASSES, fc, plugins=[CalcPlugin()]), all_ax() + LISTT_AX + CALC_AX
+    return Unit(f'{cls}.calc', F, build, ['C03', 'C04', 'C07', 'C14'], timeout_ms=15000)
+
+
+UNITS += [calc_unit(True), calc_unit(False)]
